@@ -366,6 +366,24 @@ class ArrayWorld(object):
                     allnames(o._axes, names)
         return sorted(n for n in names if isinstance(n, str))
 
+    def n_holders(self, axis_obj):
+        """Number of live objects that hold this very Axis object (also as a group member or through a Dataset variable)."""
+        from dimarray.core.axes import MultiAxis
+
+        def holds(axes):
+            for ax in list.__iter__(axes):
+                if ax is axis_obj or (isinstance(ax, MultiAxis) and holds(ax.axes)):
+                    return True
+            return False
+        n = 0
+        for oid in self.order:
+            o = self.objs[oid]
+            if isinstance(o, self.da.Dataset):
+                n += any(holds(al) for al in [o._axes] + [dict.__getitem__(o, k)._axes for k in dict.keys(o)])
+            else:
+                n += holds(o._axes)
+        return n
+
     # -- state -----------------------------------------------------------------------
     def state_key(self):
         parts = []
